@@ -3,6 +3,7 @@ package main
 import (
 	"fmt"
 	"go/token"
+	"go/types"
 	"strings"
 
 	"golang.org/x/tools/go/ssa"
@@ -379,10 +380,432 @@ func callsField(fn *ssa.Function, name string) bool {
 	return false
 }
 
-// Stubs filled in below / in other files.
-func ruleGRollback(p *Program, r *Reporter) {}
-func ruleGTmp(p *Program, r *Reporter)      {}
-func ruleGErrval(p *Program, r *Reporter)   {}
-func ruleGChan(p *Program, r *Reporter)     {}
+// ---------------------------------------------------------------------------
+// G-rollback (typestate)
 
-var _ = fmt.Sprintf
+// fieldWriters returns the functions of package rel that may (transitively,
+// through static calls inside the package) store to field fld of struct type
+// typeName.
+func fieldWriters(p *Program, rel, typeName, fld string) map[*ssa.Function]bool {
+	fns := p.FuncsIn(rel)
+	direct := map[*ssa.Function]bool{}
+	for _, fn := range fns {
+		for _, b := range fn.Blocks {
+			for _, in := range b.Instrs {
+				st, ok := in.(*ssa.Store)
+				if !ok {
+					continue
+				}
+				fa, ok := st.Addr.(*ssa.FieldAddr)
+				if !ok {
+					continue
+				}
+				if n := NamedOf(fa.X.Type()); n != nil && n.Obj().Name() == typeName && RelPkg(n.Obj().Pkg()) == rel && fieldName(fa.X.Type(), fa.Field) == fld {
+					direct[fn] = true
+				}
+			}
+		}
+	}
+	// transitive closure over static callees within the package
+	changed := true
+	for changed {
+		changed = false
+		for _, fn := range fns {
+			if direct[fn] {
+				continue
+			}
+			for _, c := range CallsIn(fn, true) {
+				if f := c.Callee(); f != nil && direct[f] {
+					direct[fn] = true
+					changed = true
+					break
+				}
+			}
+		}
+	}
+	return direct
+}
+
+func ruleGRollback(p *Program, r *Reporter) {
+	const rel = "pkg/blobserver/diskpacked"
+	fn := p.Func(rel, "storage", "append")
+	writers := fieldWriters(p, rel, "storage", "writer")
+	// undo calls: (*os.File).Truncate / Seek whose offset argument is a value
+	// loaded from s.size (the captured original offset)
+	var undo []CallSite
+	var capture ssa.Instruction
+	for _, c := range CallsIn(fn, false) {
+		if !(c.IsStatic("os", "File", "Truncate") || c.IsStatic("os", "File", "Seek")) {
+			continue
+		}
+		off := originValue(c.Args()[1])
+		ld, ok := off.(*ssa.UnOp)
+		if !ok || ld.Op != token.MUL {
+			continue
+		}
+		fa, ok := ld.X.(*ssa.FieldAddr)
+		if !ok || fieldName(fa.X.Type(), fa.Field) != "size" {
+			continue
+		}
+		undo = append(undo, c)
+		capture = ld
+	}
+	if len(undo) == 0 || capture == nil {
+		r.Violation("G-rollback", FuncKey(fn)+"#undo", p.Pos(fn.Pos()),
+			"append no longer seeks/truncates back to an offset captured from s.size before writing: a failed index update would leave the blob bytes in the pack")
+		r.Floor("G-rollback", 1)
+		return
+	}
+	after := ReachableFrom(capture, nil)
+	n := 0
+	for _, u := range undo {
+		n++
+		bad := ""
+		for _, c := range CallsIn(fn, false) {
+			if !after[c.Instr] || c.Instr == u.Instr {
+				continue
+			}
+			f := c.Callee()
+			if f == nil || !writers[f] {
+				continue
+			}
+			// is the undo reachable after this call?
+			if ReachableFrom(c.Instr, nil)[u.Instr] {
+				bad = fmt.Sprintf("%s (line %d) may replace s.writer between the capture of the undo offset and the undo at line %d: the rollback would act on a different pack file",
+					FuncKey(f), p.Fset.Position(c.Pos()).Line, p.Fset.Position(u.Pos()).Line)
+			}
+		}
+		r.Check(bad == "", "G-rollback", FuncKey(fn)+"#"+u.MethodName(), p.Pos(u.Pos()),
+			"no (transitive) writer of s.writer lies on any path between the capture of the offset and this undo call", bad)
+	}
+	// the undo must be reached on the failure edge of the index update
+	var idxSet *ssa.Call
+	for _, c := range CallsIn(fn, false) {
+		if c.Common().IsInvoke() && c.MethodName() == "Set" && c.Value() != nil && strings.HasSuffix(typeKey(c.RecvType()), "sorted.KeyValue") {
+			idxSet = c.Value()
+		}
+	}
+	if idxSet == nil {
+		brokenf("anchor unresolved: index.Set call in diskpacked.append")
+	}
+	ev, _, discarded := ErrValue(idxSet)
+	okUndo := !discarded
+	for _, u := range undo {
+		if c := u; c.IsStatic("os", "File", "Truncate") {
+			k, isNil := NilFact(c.Block(), ev)
+			if !(k && !isNil) {
+				okUndo = false
+			}
+		}
+	}
+	r.Check(okUndo, "G-rollback", FuncKey(fn)+"#undo-on-index-failure", p.Pos(idxSet.Pos()),
+		"the truncate undo is on the err!=nil edge of index.Set", "the truncate undo is not (only) on the failure edge of index.Set")
+	r.Floor("G-rollback", 3)
+}
+
+// ---------------------------------------------------------------------------
+// G-tmp is implemented with C03's F-order(iii) (rules_c03.go: ruleGTmpImpl).
+
+func ruleGTmp(p *Program, r *Reporter) { ruleGTmpImpl(p, r, "G-tmp") }
+
+// ---------------------------------------------------------------------------
+// G-errval (contradiction rule)
+
+// errvalExceptions: results documented as usable together with a non-nil error.
+var errvalExceptions = map[string]string{
+	"pkg/sorted.NewKeyValue": "returns a usable store together with NeedWipeError by contract",
+	"iface:github.com/aws/aws-sdk-go/service/s3/s3iface.S3API.GetObjectWithContext": "aws-sdk-go request methods always return a non-nil output struct, also with an error",
+	"github.com/rwcarlsen/goexif/exif.Decode":                                        "goexif returns a usable *Exif together with non-critical errors; FileTime filters critical ones with IsCriticalError first",
+}
+
+var scopeErrval = []string{"pkg/blobserver", "pkg/sorted", "pkg/index", "pkg/schema", "pkg/server", "pkg/search", "pkg/jsonsign", "pkg/blob"}
+
+func ruleGErrval(p *Program, r *Reporter) {
+	n := 0
+	for _, fn := range p.FuncsUnder(scopeErrval...) {
+		if IsTestSupportPkg(RelPkg(fn.Pkg.Pkg)) {
+			continue
+		}
+		for _, c := range CallsIn(fn, false) {
+			call := c.Value()
+			if call == nil {
+				continue
+			}
+			res := call.Call.Signature().Results()
+			if res.Len() < 2 || !isErrorType(res.At(res.Len()-1).Type()) {
+				continue
+			}
+			ev, _, discarded := ErrValue(call)
+			if discarded || ev == nil {
+				continue // `v, _ := f()`: the author asserts it cannot fail; no contradiction to find
+			}
+			if why, ok := errvalExceptions[c.CalleeKey()]; ok {
+				_ = why
+				continue
+			}
+			for i := 0; i < res.Len()-1; i++ {
+				if !isNilable(res.At(i).Type()) {
+					continue
+				}
+				v := ResultValue(call, i)
+				if v == nil {
+					continue
+				}
+				uses := derefUses(v)
+				if len(uses) == 0 {
+					continue
+				}
+				construct := FuncKey(fn) + "#" + c.CalleeKey() + "#result" + fmt.Sprint(i)
+				bad := ""
+				var badPos token.Pos
+				for _, use := range uses {
+					n++
+					blk := use.Block()
+					if k, isNil := NilFact(blk, ev); k && isNil {
+						continue // on the err==nil edge
+					}
+					if k, isNil := NilFact(blk, v); k && !isNil {
+						continue // v != nil was tested
+					}
+					if positivePredicateOn(blk, ev) {
+						continue // e.g. `if errors.Is(err, errX) { v.fix() }`: the value is used deliberately with that error
+					}
+					if !errTestedAnywhere(ev) {
+						continue // the error is only passed on, never tested here: no belief to contradict
+					}
+					bad = fmt.Sprintf("result %d of %s is dereferenced at line %d where its co-returned error is not known nil (the error is tested elsewhere in the function, so a failing call reaches this use with a nil/invalid value)",
+						i, c.CalleeKey(), p.Fset.Position(use.Pos()).Line)
+					badPos = use.Pos()
+					break
+				}
+				if bad != "" {
+					r.Violation("G-errval", construct, p.Pos(badPos), bad)
+				} else {
+					r.OK("G-errval", construct, p.Pos(c.Pos()), fmt.Sprintf("%d dereferencing use(s) all on the err==nil edge, behind a non-nil test, or under a positive error predicate", len(uses)))
+				}
+			}
+		}
+	}
+	r.Analysed("errval_deref_uses", n)
+	r.Floor("G-errval", 100)
+}
+
+func isNilable(t types.Type) bool {
+	switch t.Underlying().(type) {
+	case *types.Pointer, *types.Interface:
+		return true
+	}
+	return false
+}
+
+// derefUses lists instructions that dereference v: method calls with v as
+// receiver (interface invoke or pointer-receiver call), field access, load.
+func derefUses(v ssa.Value) []ssa.Instruction {
+	var out []ssa.Instruction
+	refs := v.Referrers()
+	if refs == nil {
+		return nil
+	}
+	for _, u := range *refs {
+		switch x := u.(type) {
+		case *ssa.Call:
+			cc := x.Common()
+			if cc.IsInvoke() && cc.Value == v {
+				out = append(out, x)
+			} else if f := cc.StaticCallee(); f != nil && f.Signature.Recv() != nil && len(cc.Args) > 0 && cc.Args[0] == v {
+				if usesReceiver(f) {
+					out = append(out, x)
+				}
+			}
+		case *ssa.FieldAddr:
+			if x.X == v {
+				out = append(out, x)
+			}
+		case *ssa.UnOp:
+			if x.Op == token.MUL && x.X == v {
+				out = append(out, x)
+			}
+		}
+	}
+	return out
+}
+
+// errTestedAnywhere reports whether some branch in the function tests ev
+// (directly against nil or through a predicate call such as os.IsNotExist).
+func errTestedAnywhere(ev ssa.Value) bool {
+	refs := ev.Referrers()
+	if refs == nil {
+		return false
+	}
+	for _, u := range *refs {
+		switch x := u.(type) {
+		case *ssa.BinOp:
+			if x.Op == token.EQL || x.Op == token.NEQ {
+				return true
+			}
+		case *ssa.Call:
+			// predicate on the error: IsNotExist(err), errors.Is(err, ...)
+			if t, ok := x.Type().(*types.Basic); ok && t.Kind() == types.Bool {
+				return true
+			}
+		}
+	}
+	return false
+}
+
+// positivePredicateOn: a boolean call taking ev as an argument is known true at blk.
+func positivePredicateOn(blk *ssa.BasicBlock, ev ssa.Value) bool {
+	k, val, _ := BoolCallFact(blk, func(c CallSite) bool {
+		for _, a := range c.Common().Args {
+			if sameOrigin(a, ev) {
+				return true
+			}
+		}
+		return false
+	})
+	return k && val
+}
+
+// usesReceiver reports whether a method touches its receiver at all (a method
+// such as `func (fr *FileReader) Close() error { return nil }` is nil-safe).
+func usesReceiver(f *ssa.Function) bool {
+	if len(f.Params) == 0 || f.Blocks == nil {
+		return true
+	}
+	refs := f.Params[0].Referrers()
+	if refs == nil {
+		return false
+	}
+	return len(nonDebug(*refs)) > 0
+}
+
+func sameBlockBeforeTest(use ssa.Instruction, ev ssa.Value) bool { return false }
+
+// ---------------------------------------------------------------------------
+// G-chan
+
+func ruleGChan(p *Program, r *Reporter) {
+	n := 0
+	for _, fn := range p.FuncsUnder(scopeC13...) {
+		if fn.Parent() != nil || IsTestSupportPkg(RelPkg(fn.Pkg.Pkg)) {
+			continue
+		}
+		// channels made in this function (or its literals)
+		var makes []*ssa.MakeChan
+		var all []*ssa.Function
+		var collect func(f *ssa.Function)
+		collect = func(f *ssa.Function) {
+			all = append(all, f)
+			for _, b := range f.Blocks {
+				for _, in := range b.Instrs {
+					if mc, ok := in.(*ssa.MakeChan); ok {
+						makes = append(makes, mc)
+					}
+				}
+			}
+			for _, a := range f.AnonFuncs {
+				collect(a)
+			}
+		}
+		collect(fn)
+		for _, mc := range makes {
+			// senders: literals spawned asynchronously that send on mc
+			senders := map[*ssa.Function]bool{}
+			multi := false
+			var closes []CallSite
+			for _, f := range all {
+				for _, b := range f.Blocks {
+					for _, in := range b.Instrs {
+						switch x := in.(type) {
+						case *ssa.Send:
+							if originValue(x.Chan) == ssa.Value(mc) {
+								if sp, loop := spawnedAncestor(f); sp != nil {
+									senders[sp] = true
+									if loop {
+										multi = true
+									}
+								}
+							}
+						case *ssa.Select:
+							for _, st := range x.States {
+								if st.Dir == types.SendOnly && originValue(st.Chan) == ssa.Value(mc) {
+									if sp, loop := spawnedAncestor(f); sp != nil {
+										senders[sp] = true
+										if loop {
+											multi = true
+										}
+									}
+								}
+							}
+						case ssa.CallInstruction:
+							c := CallSite{f, x}
+							if b, ok := c.Common().Value.(*ssa.Builtin); ok && b.Name() == "close" && originValue(c.Common().Args[0]) == ssa.Value(mc) {
+								closes = append(closes, c)
+							}
+						}
+					}
+				}
+			}
+			if len(senders) >= 2 {
+				multi = true
+			}
+			if !multi || len(closes) == 0 {
+				continue
+			}
+			for _, cl := range closes {
+				n++
+				construct := FuncKey(fn) + "#" + chanName(mc)
+				ok := false
+				// close preceded by a join in the same function/literal
+				for _, c := range CallsIn(cl.Fn, false) {
+					if isJoin(c) && Precedes(c.Instr, cl.Instr) {
+						ok = true
+					}
+				}
+				// a literal reached only through a call that is itself preceded by a join is not followed (bound 0)
+				r.Check(ok, "G-chan", construct, p.Pos(cl.Pos()),
+					"channel with several sender goroutines is closed only after a join (Wait/Err) of the group that runs them",
+					fmt.Sprintf("close(%s) is not preceded by a join of the sender goroutines: a sender still running panics with 'send on closed channel'", chanName(mc)))
+			}
+		}
+	}
+	r.Analysed("multi_sender_channel_closes", n)
+	r.Floor("G-chan", 1)
+}
+
+func chanName(mc *ssa.MakeChan) string {
+	if refs := mc.Referrers(); refs != nil {
+		for _, u := range *refs {
+			if st, ok := u.(*ssa.Store); ok {
+				if al, ok := st.Addr.(*ssa.Alloc); ok && al.Comment != "" {
+					return al.Comment
+				}
+			}
+			if d, ok := u.(*ssa.DebugRef); ok {
+				_ = d
+			}
+		}
+	}
+	return "chan"
+}
+
+func isJoin(c CallSite) bool {
+	return c.IsStatic("sync", "WaitGroup", "Wait") || c.IsStatic("go4.org/syncutil", "Group", "Wait") ||
+		c.IsStatic("go4.org/syncutil", "Group", "Err") || c.IsStatic("golang.org/x/sync/errgroup", "Group", "Wait")
+}
+
+// spawnedAncestor returns the nearest enclosing literal of f (or f itself)
+// that is started asynchronously, and whether that spawn happens inside a loop.
+func spawnedAncestor(f *ssa.Function) (*ssa.Function, bool) {
+	for cur := f; cur != nil && cur.Parent() != nil; cur = cur.Parent() {
+		par := cur.Parent()
+		for _, c := range CallsIn(par, false) {
+			for _, sp := range spawnedClosures(c) {
+				if sp == cur {
+					return cur, inLoop(c.Block())
+				}
+			}
+		}
+	}
+	return nil, false
+}
